@@ -703,8 +703,9 @@ func execCases(args []string) {
 				in := cases[i].Input()
 				if *setName == "c02" {
 					res[i] = plib.MarshalLine(traceLine{B: cases[i].B, Pad: cases[i].Pad, Src: cases[i].Src, O: observeValues(in, setC02)})
-				} else if 0 < cases[i].Pad {
-					// refill-aligned inputs: the reader variants are the point
+				} else if 0 < cases[i].Pad || (0 < len(in) && in[0] == 0xEF && *setName == "c01") {
+					// refill-aligned inputs and inputs that start like a BOM (which a reader may deliver in pieces): the
+					// reader variants are the point
 					res[i] = plib.MarshalLine(traceLine{B: cases[i].B, Pad: cases[i].Pad, Src: cases[i].Src, O: observe(in, setC09)})
 				} else {
 					res[i] = plib.MarshalLine(traceLine{B: cases[i].B, Src: cases[i].Src, O: observe(in, set)})
